@@ -1032,6 +1032,8 @@ class Polyhedron(Shape3D):
             ["vertices", "faces", "centroid", "volume", "inertia_tensor"]
         )
         hoomd_dict = _map_dict_keys(data, key_mapping=_hoomd_dict_mapping)
+        # The stored arrays are moved back below: hand out copies of the centred shape.
+        hoomd_dict["vertices"] = self.vertices.copy()
         hoomd_dict["sweep_radius"] = 0.0
 
         self.centroid = old_centroid
